@@ -88,8 +88,10 @@ func (h *transportHandler) HandleLinkEstablished(lnk link.Link) {
 func (h *transportHandler) HandleLinkLost(lnk link.Link) {
 	h.c.bcast.HoldLockMaybeAsync(func(broadcast func(), getWaitCh func() <-chan struct{}) {
 		// fast path: clear by uuid
+		// check that the entry is this link: a newer link with the same uuid may
+		// have replaced it, and a late loss of the old link must not remove it.
 		luuid := lnk.GetUUID()
-		if el, elOk := h.c.links[luuid]; elOk {
+		if el, elOk := h.c.links[luuid]; elOk && el.lnk == lnk {
 			delete(h.c.links, luuid)
 			h.c.flushEstablishedLink(el, false)
 			return
